@@ -325,6 +325,51 @@ def scale_cache_key(V, diff):
     return [("a request that differs in %s reuses the weight stream but derives and packs its own scale records" % diff, again and t2 is t1 and s2 is not None)]
 
 
+def flash_contents(V, nops):
+    """the constant tensor of the output model holds, at the address the registers point to, the bytes of EVERY operation's weight stream and of
+    every operation's scale records: the REAL serialise_npu_subgraph_into_tensors on a stand-in subgraph of `nops` operations whose encoded
+    tensors are, per operation, chosen among: own weights+scales tensor, the previous operation's cached tensor (same object), or cached weights
+    plus a stand-alone scale tensor (weight_compression_config None).  Every choice pattern is explored; bytes and addresses are concrete."""
+    import numpy as np
+    import ethosu.vela.npu_serialisation as ser
+    from ethosu.vela.nn_graph import PassPlacement
+    from harness.c04 import arch_for
+
+    arch = arch_for("Ethos_U55_128")
+    addr = [0]
+    made = []
+
+    def enc(tag, cfg):
+        n = 32
+        t = _Obj(name=tag, address=addr[0], buffer=np.full(n, len(made) + 1, dtype=np.uint8), weight_compression_config=cfg, storage_size=lambda: n)
+        addr[0] += n
+        made.append(t)
+        return t
+
+    ops, infos = [], {}
+    prev_w = None
+    for i in range(nops):
+        kind = V.choice("op%d_encoding" % i, ["own", "shared", "own_scales"] if prev_w is not None else ["own"])
+        if kind == "own":
+            w, sc = enc("w%d" % i, ("cfg", i)), None
+            prev_w = w
+        elif kind == "shared":
+            w, sc = prev_w, None
+        else:
+            w, sc = prev_w, enc("s%d" % i, None)
+        sop = _Obj(parent_op=_Obj(get_ifm_ifm2_weights_biases_ofm=lambda: (None, None, None, None, None), activation_lut=None), parent_ps=None, name="op%d" % i)
+        ops.append(sop)
+        infos[sop] = _Obj(npu_weights_tensor=w, npu_scales_tensor=sc)
+    sg = _Obj(placement=PassPlacement.Npu, memory_used={arch.permanent_storage_mem_area: addr[0], arch.feature_map_storage_mem_area: 0}, register_command_stream=[],
+              name="sg", sched_ops=ops, schedule=_Obj(cost_map=infos))
+    ser.serialise_npu_subgraph_into_tensors(sg, arch, None, None, None)
+    flash = sg.flash_tensor.values
+    cl = []
+    for t in made:
+        cl.append(("flash bytes at the address of %s are its encoded bytes" % t.name, bool(np.array_equal(flash[t.address:t.address + 32], t.buffer))))
+    return cl
+
+
 def bias(V):
     import ethosu.vela.weight_compressor as wc
 
@@ -588,13 +633,15 @@ def idle_core(V, **params):
     return c06.pair(V, **params)
 
 
-FUNCS = {"idle_core": idle_core, "scale_values": scale_values, "scale_quantisation": scale_quantisation, "buffering": buffering, "weight_ranges": weight_ranges, "codec_args": codec_args, "encode": encode, "cache": cache, "cache_key": cache_key, "scale_cache_key": scale_cache_key, "bias": bias, "bias_rejects": bias_rejects}
+FUNCS = {"idle_core": idle_core, "scale_values": scale_values, "scale_quantisation": scale_quantisation, "buffering": buffering, "weight_ranges": weight_ranges, "codec_args": codec_args, "encode": encode, "cache": cache, "cache_key": cache_key, "flash_contents": flash_contents, "scale_cache_key": scale_cache_key, "bias": bias, "bias_rejects": bias_rejects}
 
 
 def instances(tier, seed):
     out = []
     for diff in ("none", "bias_values", "ifm_scale", "ofm_scale"):
         out.append(dict(key="scale_cache_key/%s" % diff, fn="scale_cache_key", params=dict(diff=diff)))
+    for nops in (2, 3, 4):
+        out.append(dict(key="flash_contents/%d" % nops, fn="flash_contents", params=dict(nops=nops)))
     for gname in ("weights", "biases"):
         out.append(dict(key="idle_core/%s" % gname, fn="idle_core", params=dict(accel="Ethos_U65_512", kind="conv", group=gname, light=True), weight=100))
     for accel in ("Ethos_U55_128", "Ethos_U65_512"):
